@@ -661,6 +661,36 @@ func c01DistinctKeys(l *ssau.RangeLoop) (bool, string) {
 			return true, "the re-ranker's results (one per command index)"
 		}
 	}
+	// a slice collecting the keys of a map, one append of the key per iteration
+	if phi, ok := l.Over.(*ssa.Phi); ok {
+		fn := phi.Parent()
+		for _, ml := range ssau.RangeLoops(fn) {
+			if !ml.IsMap || ml.Header != phi.Block() {
+				continue
+			}
+			okAll, n := true, 0
+			for i, e := range phi.Edges {
+				pr := phi.Block().Preds[i]
+				if !(ml.InLoop(pr) || pr == ml.Header) {
+					continue
+				}
+				call, isCall := e.(*ssa.Call)
+				if !isCall || ssau.CallName(call) != "builtin.append" || call.Common().Args[0] != ssa.Value(phi) {
+					okAll = false
+					continue
+				}
+				el := appendedSingle(call)
+				ex, isEx := el.(*ssa.Extract)
+				if !isEx || ex.Tuple != ssa.Value(ml.Next) || ex.Index != 1 {
+					okAll = false
+				}
+				n++
+			}
+			if okAll && n == 1 {
+				return true, "a slice holding each key of a map once"
+			}
+		}
+	}
 	if p := ssau.ParamOf(l.Over); p != nil {
 		return true, "the elements of the list passed in (uniqueness is inherited)"
 	}
